@@ -74,37 +74,45 @@ def ident(R, ctx):
 
 
 def keyword(R, ctx):
+    """is_valid_identifier on the finite tables that define a Lua name: reserved words and character classes."""
+    from .. import peval
     rid = "C14.keyword"
     lib = ctx.lib
-    R.rule(rid, "is_valid_identifier: false for each of the 21 Lua reserved words; tests the first character class separately (no leading digit) and refuses the empty string")
+    R.rule(rid, "is_valid_identifier, evaluated from its typed tree: false for each of the 21 Lua reserved words and for the empty string; for "
+                "every ASCII character c, a one-character name `c` is refused unless c is a letter or `_`, and `a`+c is refused unless c is a "
+                "letter, digit or `_`; a non-ASCII letter is refused (Lua 5.1 / Luau names are ASCII). One-sided: refusing more only quotes "
+                "more keys")
     fn = lib.fn("process::utils::is_valid_identifier")
     if not R.require(rid, "anchor", fn is not None, "", "not found"):
         return
-    strs = set()
-    for n_ in thir.walk(thir.body_of(fn)):
-        if n_.get("k") == "Match":
-            for arm in n_["arms"]:
-                s = thir.pat_strings(arm["pat"])
-                if s:
-                    strs |= set(s)
+
+    def ev(sv):
+        pe = peval.PEval(lib, ctx.an)
+        try:
+            return pe.call_fn(fn, [sv]), pe.unknown_reasons
+        except peval.OutOfFuel:
+            return peval.UNKNOWN, ["no termination"]
     for k in c09.LUA_KEYWORDS:
-        R.ob(rid, "keyword|" + k, k in strs, ctx.where(fn), "`%s` %s" % (k, "rejected" if k in strs else "accepted as an identifier"))
-    body = thir.body_of(fn)
-    names = [c.get("fname") for c in thir.walk(body) if c.get("k") == "Call"]
-    # the keyword match is negated
-    neg_kw = any(x.get("k") == "Unary" and x.get("op") == "Not" and any(y.get("k") == "Match" and any(thir.pat_strings(a["pat"]) for a in y["arms"]) for y in thir.walk(x["e"])) for x in thir.walk(body))
-    R.ob(rid, "keywords-negated", neg_kw, ctx.where(fn), "`!matches!(identifier, <keywords>)`: %s" % neg_kw)
-    neg_empty = any(x.get("k") == "Unary" and x.get("op") == "Not" and any(y.get("k") == "Call" and y.get("fname") == "is_empty" for y in thir.walk(x["e"])) for x in thir.walk(body))
-    R.ob(rid, "empty-rejected", neg_empty, ctx.where(fn), "`!identifier.is_empty()`: %s" % neg_empty)
-    # a digit is accepted only at index > 0
-    digit_ok = False
-    for x in thir.walk(body):
-        if x.get("k") == "Logical" and x.get("op") == "And":
-            has_digit = any(y.get("k") == "Call" and y.get("fname") == "is_ascii_digit" for y in thir.walk(x))
-            has_pos = any(y.get("k") == "Binary" and y.get("op") in ("Gt", "Ne", "Ge") and any(z.get("k") == "Lit" and z.get("v") in ("0", "1") for z in thir.walk(y)) for y in thir.walk(x))
-            if has_digit and has_pos:
-                digit_ok = True
-    R.ob(rid, "no-leading-digit", digit_ok, ctx.where(fn), "`c.is_ascii_digit() && i > 0`: %s" % digit_ok)
+        v, why = ev(k)
+        R.ob(rid, "keyword|" + k, v is False, ctx.where(fn), "`%s` %s" % (k, "rejected" if v is False else ("accepted as an identifier" if v is True else "not established (%s)" % why[:1])))
+    v, why = ev("")
+    R.ob(rid, "empty-rejected", v is False, ctx.where(fn), "the empty string is %s" % ("rejected" if v is False else "accepted / not established %s" % why[:1]))
+    bad_first, bad_later, unk = [], [], []
+    for c in range(128):
+        ch = chr(c)
+        first_ok = ch.isalpha() or ch == "_"
+        later_ok = ch.isalnum() or ch == "_"
+        v1, w1 = ev(ch)
+        v2, w2 = ev("a" + ch)
+        if not first_ok and v1 is not False:
+            (bad_first if v1 is True else unk).append(repr(ch))
+        if not later_ok and v2 is not False:
+            (bad_later if v2 is True else unk).append(repr("a" + ch))
+    R.ob(rid, "no-leading-digit", not bad_first, ctx.where(fn), "every one-character name that does not start a Lua name is refused" if not bad_first else "accepted as names: %s" % bad_first[:8])
+    R.ob(rid, "later-characters", not bad_later, ctx.where(fn), "every `a<c>` with c outside [A-Za-z0-9_] is refused" if not bad_later else "accepted as names: %s" % bad_later[:8])
+    R.ob(rid, "table-established", not unk, ctx.where(fn), "all 256 character cells evaluate to a boolean" if not unk else "not established for %s" % unk[:6])
+    v, why = ev("\u00e9")
+    R.ob(rid, "non-ascii-rejected", v is False, ctx.where(fn), "a non-ASCII letter is %s" % ("refused" if v is False else "accepted / not established %s" % why[:1]))
 
 
 def total(R, ctx):
